@@ -112,6 +112,17 @@ CHECKS["C15"] = dict(
     technique="TLA+ spec of the coercions model-checked with TLC; generated vectors replayed; trace validation of float round trips",
     design="3/C15")
 
+CHECKS["C16"] = dict(
+    text="spec/props/C16.tla gives every container fixture an abstract content and defines GetAttrRef(d, key, args) in "
+         "{element, error, undecided} and the traversal requirements (every element once, slices in index order, loop metadata "
+         "relations, Len/IsIterable/IsArray/IsMap/Contains agreeing with the traversal); TLC enumerates containers x keys x "
+         "argument lists, the harness performs every GetAttr call and traversal on the real value (recovering panics per call), "
+         "and TLC (C16_Trace.tla) accepts or rejects each recorded call against the abstract content (maps: any order).",
+    note="Trusted: fixture catalogue and its abstract content in C16.tla; where the property does not decide (float key on map[int], "
+         "non-integral index) only 'no panic and the result is an element of the container' is required.",
+    technique="TLA+ spec of attribute access/iteration; TLC-generated cases; TLC trace validation of the recorded calls",
+    design="3/C16")
+
 NOT_YET = {}
 
 props = [json.loads(l)["id"] for l in open(os.path.join(VERIF, "properties.jsonl"))]
